@@ -878,7 +878,7 @@ func TestVerifSender(t *testing.T) {
 		vfSenderCase(t, s, r, vfParseCase(l), tag, "corpus")
 		tag++
 	}
-	n := vfutil.Scale(250, 6000)
+	n := vfutil.Scale(1500, 30000)
 	for i := 0; i < n; i++ {
 		c := vfGenCase(r.Fork(), i)
 		vfSenderCase(t, s, r, c, tag, "gen")
